@@ -61,6 +61,7 @@ class Engine(ExprMixin, CallMixin):
         self.f_callable = z3.Function('is_callable', Val, z3.BoolSort())
         self.f_opaque_call = z3.Function('opaque_call', Val, Val, Val)
         self.f_oseq_len = z3.Function('oseq_len', Val, z3.IntSort())
+        self.f_keysum = z3.Function('sum_over_keys', z3.ArraySort(Val, z3.IntSort()), z3.IntSort())
         self.f_setof = z3.Function('set_of', Val, z3.ArraySort(Val, z3.BoolSort()))   # members of set(x) for an opaque iterable x
         self.f_oseq_item = z3.Function('oseq_item', Val, z3.IntSort(), Val)
         self.stable_lists = set()
